@@ -8,6 +8,7 @@ its preservation by every step, and the bridge from "registered processors count
 (`wouldAcceptR`) to the real answer (`wouldAccept`).
 -/
 import SimProc.Proofs.C03XSw
+import SimProc.Proofs.C03YSwrW
 import SimProc.Props.C11W
 import SimProc.Props.C17W
 
@@ -36,7 +37,7 @@ declares a requirement, the class `C11W.S` of the resource theorems; if batchers
 sources or group devices exist, the conditions of the batcher / conservation theorems (`C17W`):
 scripts schedule failures of non-sinks only, every configured batch size is positive. -/
 def S4 (w : World) : Prop :=
-  SC w ∧ (hasRes w = true → C11W.S w) ∧ (¬ NoBatch w → ScrB w ∧ C17W.SizesPos w)
+  (SC w ∧ NR w) ∧ (hasRes w = true → C11W.S w) ∧ (¬ NoBatch w → ScrB w ∧ C17W.SizesPos w)
 
 instance (w : World) : Decidable (S4 w) := by unfold S4; infer_instance
 
@@ -72,7 +73,7 @@ def S2 (w : World) : Prop := S3 w ∧ NoBatch w
 instance (w : World) : Decidable (S2 w) := by unfold S2; infer_instance
 
 theorem S1.s2 {w : World} (h : S1 w) : S2 w :=
-  ⟨⟨⟨h.sc, (fun hr => by rw [h.noRes] at hr; cases hr), fun hn => absurd h.noBatch hn⟩,
+  ⟨⟨⟨⟨h.sc, h.nr⟩, (fun hr => by rw [h.noRes] at hr; cases hr), fun hn => absurd h.noBatch hn⟩,
     noGroups_of_noBatch h.noBatch⟩, h.noBatch⟩
 
 theorem S2.s3 {w : World} (h : S2 w) : S3 w := h.1
@@ -81,17 +82,21 @@ theorem S3.s4 {w : World} (h : S3 w) : S4 w := h.1
 
 /-! ### the static conditions of C02 / C17W follow from the scope -/
 
-theorem scriptsStatic_of {w : World} (hs : SC w) (hb : ScrB w) : C02V.ScriptsStatic w := by
+theorem scriptsStatic_of {w : World} (hs : SC w) (hr : NR w) (hb : ScrB w) :
+    C02V.ScriptsStatic w := by
   intro l hl op hop
   have h1 := hs.scriptOp hl hop
   have h2 := hb l hl op hop
+  have h3 := (hr l hl op hop).1
   cases op <;> first
     | exact absurd h1 id
+    | exact absurd rfl (h3 _ _)
     | exact h2
     | trivial
 
-theorem static_of {w : World} (hs : SC w) (hb : ScrB w) (he : EvOK w) : C02V.Static w := by
-  refine ⟨scriptsStatic_of hs hb, fun x => hs.giveOK x, ?_⟩
+theorem static_of {w : World} (hs : SC w) (hr : NR w) (hb : ScrB w) (he : EvOK w) :
+    C02V.Static w := by
+  refine ⟨scriptsStatic_of hs hr hb, fun x => hs.giveOK x, ?_⟩
   rintro ⟨n, hn, d, hd, hk⟩
   have := he n hn d hd
   rw [this] at hk; cases hk
@@ -101,6 +106,8 @@ structure GoodB (w : World) : Prop where
   g : G [] [] [] w
   r : hasRes w = true → C11W.Inv w
   c : ¬ NoBatch w → C17W.CI w
+  /-- no script re-wires, or every device has been initialised -/
+  i : IOK w
 
 theorem GoodB.invB {w : World} (h : GoodB w) : InvB w := fun hnb => (h.c hnb).inv
 
@@ -132,7 +139,7 @@ theorem sizesPos_of_sw {w w' : World} (e : sw w' = sw w) (h : C17W.SizesPos w) :
   rw [this]; exact hn
 
 theorem S4.of_sw {w w' : World} (h : S4 w) (hsc : SC w') (r : SW w w') (r' : C02V.SS w w') : S4 w' :=
-  ⟨hsc, fun hr => (h.2.1 (by rw [← hasRes_of_ss r']; exact hr)).of_ss r',
+  ⟨⟨hsc, h.1.2.of_sw r⟩, fun hr => (h.2.1 (by rw [← hasRes_of_ss r']; exact hr)).of_ss r',
     fun hn => by
       have := h.2.2 (fun hb => hn ((noBatch_of_sw r.sw_eq).mpr hb))
       exact ⟨scrB_of_sw r.sw_eq this.1, sizesPos_of_sw r.sw_eq this.2⟩⟩
@@ -140,21 +147,27 @@ theorem S4.of_sw {w w' : World} (h : S4 w) (hsc : SC w') (r : SW w w') (r' : C02
 theorem S3.of_sw {w w' : World} (h : S3 w) (hsc : SC w') (r : SW w w') (r' : C02V.SS w w') : S3 w' :=
   ⟨h.1.of_sw hsc r r', noGroups_of_sw r.sw_eq h.2⟩
 
+theorem hasRes_of_swr' {w w' : World} (r : SWR w w') : hasRes w' = hasRes w := hasRes_of_swr r.1
+
+theorem noBatch_of_swr' {w w' : World} (r : SWR w w') : NoBatch w' ↔ NoBatch w := noBatch_of_swr r.1
+
 theorem GoodB.step {w w' : World} {e : Event} (h : GoodB w) (hst : w.step = some (e, w')) :
     GoodB w' := by
-  have r := sw_step w w' e h.g.sc.nr hst
-  exact ⟨h.g.stepG h.invB h.settled hst,
-    fun hr => C11W.inv_step w w' e
-      (h.r (by rw [← hasRes_of_ss (nr_step w w' e h.g.sc.nr hst)]; exact hr)) hst,
-    fun hn => C17W.ci_step w w' e (h.c (fun hb => hn ((noBatch_of_sw r.sw_eq).mpr hb))) hst⟩
+  have r := swrw_step w w' e h.g.sc.nc hst
+  exact ⟨h.g.stepG h.invB h.settled h.i hst,
+    fun hr => C11W.inv_step w w' e (h.r (by rw [← hasRes_of_swr' r]; exact hr)) hst,
+    fun hn => C17W.ci_step w w' e (h.c (fun hb => hn ((noBatch_of_swr' r).mpr hb))) hst,
+    h.i.step (istep_step hst)⟩
 
 theorem GoodB.runLoop (n : Nat) : ∀ {w : World}, GoodB w → GoodB (runLoop n w) := by
   induction n with
   | zero =>
     intro w h
-    refine ⟨h.g.setErr _, fun hr => C11W.inv_runLoop 0 w (h.r ?_), fun hn => C17W.ci_runLoop 0 w (h.c ?_)⟩
-    · rw [← hasRes_of_ss (nr_runLoop 0 w h.g.sc.nr)]; exact hr
-    · exact fun hb => hn ((noBatch_of_sw (sw_runLoop 0 w h.g.sc.nr).sw_eq).mpr hb)
+    have r := swrw_runLoop 0 w h.g.sc.nc
+    refine ⟨h.g.setErr _, fun hr => C11W.inv_runLoop 0 w (h.r ?_), fun hn => C17W.ci_runLoop 0 w (h.c ?_),
+      h.i.step (istep_runLoop 0 w)⟩
+    · rw [← hasRes_of_swr' r]; exact hr
+    · exact fun hb => hn ((noBatch_of_swr' r).mpr hb)
   | succ n ih =>
     intro w h
     unfold World.runLoop
@@ -168,7 +181,8 @@ theorem GoodB.runBegin {w : World} (h : GoodB w) (d : Int) : GoodB (w.runBegin d
   ⟨h.g.runBeginG d,
     fun hr => C11W.inv_runBegin w d (h.r (by rw [← hasRes_of_ss (ss_runBegin w d)]; exact hr)),
     fun hn => C17W.ci_runBegin w d
-      (h.c (fun hb => hn ((noBatch_of_sw (sw_runBegin w d).sw_eq).mpr hb)))⟩
+      (h.c (fun hb => hn ((noBatch_of_sw (sw_runBegin w d).sw_eq).mpr hb))),
+    h.i.step (istep_runBegin w d)⟩
 
 /-! ### registered processors really cannot get their resources, or a check is pending -/
 
@@ -183,9 +197,9 @@ theorem canFulfill_of_filter (rm : RM) (req : Req) (hnn : ∀ e ∈ req, 0 ≤ e
 
 /-- **(W3)** A processor that the invariant counts as refusing for want of resources (it is
 registered with the resource manager) cannot get them now — or a live availability check is queued
-for the current instant. -/
-theorem GoodB.registered {w : World} (h : GoodB w) (y : Nat) (hk : (w.dev y).kind = .processor)
-    (hm : procM (w.dev y) = false) :
+for the current instant.  (What is needed of the resource invariant is `C11W.Pend` only.) -/
+theorem registered_of {w : World} (hg : G [] [] [] w) (hp : hasRes w = true → C11W.Pend w) (y : Nat)
+    (hk : (w.dev y).kind = .processor) (hm : procM (w.dev y) = false) :
     procReal w y = false ∨ C11W.QueuedL w .rmCheck w.now pOtherHigh (-1) := by
   unfold procM at hm
   rw [hk] at hm
@@ -200,14 +214,14 @@ theorem GoodB.registered {w : World} (h : GoodB w) (y : Nat) (hk : (w.dev y).kin
       rw [List.any_eq_true]
       exact ⟨w.dev y, dev_mem hylt, by rw [hq]; rfl⟩
     have hreg : Reg w := by
-      rcases h.g.wr with hn | hr
+      rcases hg.wr with hn | hr
       · rw [hres] at hn; cases hn
       · exact hr
     obtain ⟨req', hq', hmem⟩ := hreg.2 y hm.2
     rw [hq] at hq'
     cases hq'
     cases hc : w.rm.canFulfill req with
-    | true => exact Or.inr ((h.r hres).pend ⟨(req, Cb.proc y), hmem, hc⟩)
+    | true => exact Or.inr (hp hres ⟨(req, Cb.proc y), hmem, hc⟩)
     | false =>
       left
       unfold procReal
@@ -216,7 +230,12 @@ theorem GoodB.registered {w : World} (h : GoodB w) (y : Nat) (hk : (w.dev y).kin
       cases hf : w.rm.canFulfill (req.filter (fun e => e.2 > 0)) with
       | false => simp
       | true =>
-        rw [canFulfill_of_filter w.rm req (h.g.sc.reqNN y hq) hf] at hc; cases hc
+        rw [canFulfill_of_filter w.rm req (hg.sc.reqNN y hq) hf] at hc; cases hc
+
+theorem GoodB.registered {w : World} (h : GoodB w) (y : Nat) (hk : (w.dev y).kind = .processor)
+    (hm : procM (w.dev y) = false) :
+    procReal w y = false ∨ C11W.QueuedL w .rmCheck w.now pOtherHigh (-1) :=
+  registered_of h.g (fun hr => (h.r hr).pend) y hk hm
 
 /-- no live event is due at the current instant ⇒ no availability check is pending -/
 theorem no_check_of_advance {w : World} (hadv : ∀ e ∈ w.env.events, w.now < e.time) :
@@ -261,11 +280,16 @@ theorem consS_of {w : World} (hs : SC w) : ∀ f x stk,
 
 /-- If no availability check is pending, whoever refuses in the invariant's sense really
 refuses. -/
+theorem real_of_R_of {w : World} (hg : G [] [] [] w) (hp : hasRes w = true → C11W.Pend w)
+    (hno : ¬ C11W.QueuedL w .rmCheck w.now pOtherHigh (-1)) (f x p : Nat)
+    (hr : wouldAcceptR f w x p = false) : wouldAccept f w x p = false :=
+  wouldAcceptT_of_S (fun y hk hm => (registered_of hg hp y hk hm).resolve_right hno) f x _
+    (consS_of hg.sc f x _ (hg.stk.part p)) hr
+
 theorem GoodB.real_of_R {w : World} (h : GoodB w)
     (hno : ¬ C11W.QueuedL w .rmCheck w.now pOtherHigh (-1)) (f x p : Nat)
     (hr : wouldAcceptR f w x p = false) : wouldAccept f w x p = false :=
-  wouldAcceptT_of_S (fun y hk hm => (h.registered y hk hm).resolve_right hno) f x _
-    (consS_of h.g.sc f x _ (h.g.stk.part p)) hr
+  real_of_R_of h.g (fun hr => (h.r hr).pend) hno f x p hr
 
 /-! ### initialisation -/
 
